@@ -78,7 +78,10 @@ class Parser:
         return expr
 
     def _parse_and(self):
-        return self._parse_element()
+        expr = self._parse_element()
+        while not (self.at_end() or self.peek("|") or self.peek(")")):
+            expr = expr + self._parse_element()
+        return expr
 
     def _parse_element(self):
         """Parse single element of regex"""
